@@ -64,31 +64,46 @@ def _analyse_sampling(ctx, f, kind):
     if rid is None:
         raise shape_error('%s: scan counter not found' % f.name, f.loc(wl))
     # ---- table construction: A[i] pairs with fix i --------------------------------------
-    tl = [s for s in body[:body.index(lo)] if isinstance(s, ast.For) and any(
+    pre_stmts = body[:body.index(lo)]
+    tl = [s for s in pre_stmts if isinstance(s, ast.For) and any(
         isinstance(n, ast.Call) and getattr(n.func, 'attr', None) == 'append' and isinstance(n.func.value, ast.Name) and n.func.value.id == tab
         for n in ast.walk(s))]
-    if len(tl) != 1:
+    tc = [s for s in pre_stmts if isinstance(s, ast.Assign) and isinstance(s.targets[0], ast.Name) and s.targets[0].id == tab and
+          isinstance(s.value, ast.ListComp)]
+    if len(tl) + len(tc) != 1:
         raise shape_error('%s: construction of the abscissa table not found' % f.name, f.loc())
-    tl = tl[0]
-    iv = tl.target.id
+    tl = (tl + tc)[0]
     pre_t = [o for o in w.run(body[:body.index(tl)], State()) if o.kind == 'fall'][0].state
-    r = w.range_info(tl.iter, pre_t)
-    bo = [o for o in w.run(tl.body, State({iv: Rat.atom(iv), tab: Rat.atom(tab)})) if o.kind == 'fall']
-    if len(bo) != 1:
-        raise shape_error('table loop body not straight-line', f.loc(tl))
-    app = [e for e in bo[0].state.events if e.kind == 'call' and e.name == 'append' and vr(e.recv) == tab]
-    if len(app) != 1:
-        raise shape_error('table loop: expected one append', f.loc(tl))
+    if isinstance(tl, ast.For):
+        iv = tl.target.id
+        r = w.range_info(tl.iter, pre_t)
+        st_t = pre_t.fork()
+        st_t.events = []
+        st_t.env.update({iv: Rat.atom(iv), tab: Rat.atom(tab)})
+        bo = [o for o in w.run(tl.body, st_t) if o.kind == 'fall']
+        if len(bo) != 1:
+            raise shape_error('table loop body not straight-line', f.loc(tl))
+        app = [e for e in bo[0].state.events if e.kind == 'call' and e.name == 'append' and vr(e.recv) == tab]
+        if len(app) != 1:
+            raise shape_error('table loop: expected one append', f.loc(tl))
+        elt = app[0].args[0]
+        titer = unparse(tl.iter)
+    else:
+        ci = w.comp_info(tl.value, pre_t)
+        if ci is None or ci['ifs']:
+            raise shape_error('%s: table comprehension not understood' % f.name, f.loc(tl))
+        iv, r, elt = ci['var'], ci['range'], ci['elt']
+        titer = unparse(tl.value.generators[0].iter)
     size = Rat.atom('%s.size()' % tr)
     if kind == 'temporal':
-        okt = vr(app[0].args[0]) == '%s.getObs(%s).timestamp.toAbsTime()' % (tr, iv) and r is not None and vr(r[0]) == '0' and \
+        okt = vr(elt) == '%s.getObs(%s).timestamp.toAbsTime()' % (tr, iv) and r is not None and vr(r[0]) == '0' and \
             w.rel.is_zero(r[1] - size)
         ctx.check(okt, 'C05.I', f, 'T[i] is the epoch-seconds timestamp of fix i, for every fix',
-                  witness={'appended': vr(app[0].args[0]), 'range': unparse(tl.iter)}, node=tl, key='table')
+                  witness={'element i': vr(elt), 'range': titer}, node=tl, key='table')
     else:
         im1 = repr(Rat.atom(iv) - Rat.const(1))
         legs = {'%s.getObs(%s).position.distance2DTo(%s.getObs(%s).position)' % (tr, a, tr, b) for a, b in ((im1, iv), (iv, im1))}
-        v = app[0].args[0]
+        v = elt
         prev = Rat.atom('%s[%s]' % (tab, im1))
         leg = v - prev if isinstance(v, Rat) else None
         okl = leg is not None and vr(leg) in legs
@@ -99,11 +114,19 @@ def _analyse_sampling(ctx, f, kind):
         s0 = pre_t.env.get(tab)
         ctx.check(isinstance(s0, list) and len(s0) == 1 and isinstance(s0[0], Rat) and s0[0].isconst() and s0[0].constval() == 0 and
                   r is not None and vr(r[0]) == '1' and w.rel.is_zero(r[1] - size), 'C05.L', f,
-                  'the cumulated abscissa starts at S[0] = 0 and has one entry per fix', witness={'initial': vr(s0), 'range': unparse(tl.iter)},
+                  'the cumulated abscissa starts at S[0] = 0 and has one entry per fix', witness={'initial': vr(s0), 'range': titer},
                   node=tl, key='s0')
     # ---- one iteration of the sampling loop ----------------------------------------------
     kv = lo.target.id
     pre_l = [o for o in w.run(body[body.index(tl) + 1:body.index(lo)], State({tab: Rat.atom(tab)})) if o.kind == 'fall']
+    lastname = '%s[%s]' % (tab, repr(Rat.atom('len(%s)' % tab) - Rat.const(1)))
+    for o_ in pre_l:                # A[-1] is A[len(A)-1]
+        for k_, v_ in list(o_.state.env.items()):
+            if isinstance(v_, Rat) and ('%s[-1]' % tab) in v_.atoms():
+                o_.state.env[k_] = v_.subst('%s[-1]' % tab, Rat.atom(lastname))
+        for e_ in o_.state.events:
+            if e_.kind == 'call' and e_.args:
+                e_.args = [a_.subst('%s[-1]' % tab, Rat.atom(lastname)) if isinstance(a_, Rat) and ('%s[-1]' % tab) in a_.atoms() else a_ for a_ in e_.args]
     if len(pre_l) != 1:
         raise shape_error('%s: code before the sampling loop' % f.name, f.loc())
     pst = pre_l[0].state
@@ -129,20 +152,23 @@ def _analyse_sampling(ctx, f, kind):
     rv = env.get(rid)
     if not (isinstance(rv, Rat) and rv.single_atom()):
         raise shape_error('%s: scan counter after the scan' % f.name, f.loc(wl))
-    # the scan: strict comparison A[rid] < a, counter += 1
-    tcmp = wl.test
-    okscan = isinstance(tcmp, ast.Compare) and len(tcmp.ops) == 1 and isinstance(tcmp.ops[0], (ast.Lt, ast.Gt))
+    # the scan: strict comparison A[rid] < a, counter + 1
+    sst = State({rid: Rat.atom(rid), tab: Rat.atom(tab)})
+    for n_ in ast.walk(wl.test):
+        if isinstance(n_, ast.Name) and n_.id not in (rid, tab):
+            sst.env[n_.id] = Rat.atom(n_.id)
+    tc_ = w.cond(wl.test, sst)
     a_name = None
-    if okscan:
-        l_, r_ = tcmp.left, tcmp.comparators[0]
-        if isinstance(tcmp.ops[0], ast.Gt):
-            l_, r_ = r_, l_
-        okscan = unparse(l_) == '%s[%s]' % (tab, rid) and isinstance(r_, ast.Name)
-        a_name = r_.id if isinstance(r_, ast.Name) else None
-    inc = [s for s in wl.body if isinstance(s, ast.AugAssign) and unparse(s.target) == rid and isinstance(s.op, ast.Add) and unparse(s.value) == '1']
-    ctx.check(okscan and len(inc) == 1 and len(wl.body) == 1, 'C05.A', f,
+    okscan = tc_.kind == 'cmp' and tc_.op == '<' and vr(tc_.a) == '%s[%s]' % (tab, rid) and isinstance(tc_.b, Rat) and tc_.b.single_atom() is not None and \
+        tc_.b.single_atom().isidentifier()
+    if tc_.kind == 'cmp' and isinstance(tc_.b, Rat) and vr(tc_.a) == '%s[%s]' % (tab, rid) and (tc_.b.single_atom() or '').isidentifier():
+        a_name = tc_.b.single_atom()
+    sb = [o_ for o_ in w.run(wl.body, State({rid: Rat.atom(rid)}))]
+    okinc = len(sb) == 1 and sb[0].kind == 'fall' and isinstance(sb[0].state.env.get(rid), Rat) and \
+        w.rel.is_zero(sb[0].state.env[rid] - Rat.atom(rid) - Rat.const(1)) and not [e for e in sb[0].state.events if e.kind in ('call', 'store')]
+    ctx.check(okscan and okinc, 'C05.A', f,
               'the bracket is found by a strict sentinel scan: while A[r] < a: r += 1 (a == A[last] must stop the scan)',
-              witness={'test': unparse(wl.test), 'why': 'a non-strict test runs past the last fix when the request equals the last abscissa'},
+              witness={'test': repr(tc_), 'why': 'a non-strict test runs past the last fix when the request equals the last abscissa'},
               node=wl, key='scan')
     if a_name is None:
         return None
@@ -206,8 +232,15 @@ def rule_T(ctx):
         w.rel.is_zero(calls[0].args[2] - last)
     ctx.check(okp, 'C05.R', f, 'the requests are prepared from the reference with the first and last timestamps of the track',
               witness={'call': unparse(calls[0].node) if calls else None}, node=f.node, key='prepare')
-    ctx.check(vr(a) == '%s[%s]' % (calls[0].value if calls else '?', info['kv']), 'C05.R', f, 'every prepared request is examined in order',
-              witness={'requested': vr(a)}, node=info['lo'], key='ref-k')
+    callv = calls[0].value if calls else '?'
+    lo_, kv_ = info['lo'], info['kv']
+    rq = w.range_info(lo_.iter, pst.fork())
+    if rq is not None:
+        okq = vr(a) == '%s[%s]' % (callv, kv_) and vr(rq[0]) == '0' and vr(rq[1]) == 'len(%s)' % callv and vr(rq[2]) == '1'
+    else:
+        okq = vr(w.ex(lo_.iter, pst.fork())) == callv and vr(a) == kv_
+    ctx.check(okq, 'C05.R', f, 'every prepared request is examined in order',
+              witness={'requested': vr(a), 'loop': unparse(lo_.iter)}, node=lo_, key='ref-k')
     t = unparse(f.node)
     ctx.recognise('%s.setObsList(interp_points)' % info['tr'] in t or 'setObsList(' in t, 'C05.S', f, 'the track receives the interpolated observations',
               witness={}, node=f.node, key='setobs')
@@ -227,12 +260,15 @@ def rule_L(ctx):
               witness={'abscissa': vr(a)}, node=lo, key='abscissa')
     r = w.range_info(lo.iter, pst)
     N = 'int(%s)' % w.canon((last - first) / ds)
-    okr = r is not None and vr(r[0]) == '1' and w.rel.is_zero(r[1] - Rat.atom(N) - Rat.const(1)) and vr(r[2]) == '1'
+    nl = lambda t_: t_.replace('%s[-1]' % tab, '%s[-1 + len(%s)]' % (tab, tab))
+    okr = r is not None and vr(r[0]) == '1' and nl(vr(r[1] - Rat.const(1))) == N and vr(r[2]) == '1'
     ctx.check(okr, 'C05.L', f, 'samples are k = 1 .. int(L/ds) (L the 2D length): none beyond the end of the polyline',
               witness={'range': [vr(x) for x in r] if r else None, 'expected end': '%s + 1' % N}, node=lo, key='count')
     ip = pst.env.get('interp_points')
     txt = unparse(f.node)
-    ctx.recognise('[%s.getFirstObs().copy()]' % tr in txt, 'C05.L', f, 'the output starts with a copy of the first fix', witness={}, node=f.node, key='first')
+    fo = ['%s.getFirstObs().copy()' % tr, '%s.getObs(0).copy()' % tr, '%s[0].copy()' % tr]
+    ctx.check(isinstance(ip, list) and len(ip) == 1 and vr(ip[0]) in fo, 'C05.L', f, 'the output starts with a copy of the first fix',
+              witness={'initial output list': vr(ip)}, node=f.node, key='first')
     ctx.recognise('%s.setObsList(interp_points)' % tr in txt, 'C05.S', f, 'the track receives the interpolated observations', witness={}, node=f.node, key='setobs')
 
 
@@ -256,15 +292,28 @@ def rule_R(ctx):
         if k not in found:
             raise shape_error('prepareTimeSampling: arm for %s not found' % k, f.loc())
     for k, exp_v, exp_hi in (('list', '%s[i].toAbsTime()' % inp, 'len(%s)' % inp), ('track', '%s.getObs(i).timestamp.toAbsTime()' % inp, '%s.size()' % inp)):
-        loops = [s for s in found[k].body if isinstance(s, ast.For)]
+        wa = Walker(f, loop_mode='once')
+        seen_app = []
+        for o in wa.run(found[k].body, State()):
+            for e in o.state.events:
+                if e.kind == 'call' and e.name == 'append' and e.loops and not any(e.node is x.node for x in seen_app):
+                    seen_app.append(e)
         ok = False
-        if len(loops) == 1:
-            l = loops[0]
-            r = w.range_info(l.iter, State())
-            bo = [o for o in w.run(l.body, State({l.target.id: Rat.atom('i')})) if o.kind == 'fall']
-            apps = [e for o in bo for e in o.state.events if e.kind == 'call' and e.name == 'append']
-            ok = r is not None and vr(r[0]) == '0' and vr(r[1]) == exp_hi and len(apps) == 1 and vr(apps[0].args[0]) == exp_v
-        ctx.check(ok, 'C05.R', f, 'request given as a %s: every element contributes its epoch seconds, in order' % k, witness={}, node=found[k], key='arm:' + k)
+        wit = {'appends': [repr(e) for e in seen_app]}
+        if len(seen_app) == 1:
+            e = seen_app[0]
+            lp = e.loops[-1]
+            if lp['kind'] == 'for' and isinstance(lp['node'].target, ast.Name):
+                lv = lp['node'].target.id
+                r = lp.get('range')
+                got = vr(e.args[0])
+                if r is not None:
+                    ok = vr(r[0]) == '0' and vr(r[1]) == exp_hi and vr(r[2]) == '1' and got == exp_v.replace('[i]', '[%s]' % lv).replace('(i)', '(%s)' % lv)
+                else:
+                    ok = k == 'list' and vr(lp['iter']) == inp and got == '%s.toAbsTime()' % lv
+                wit.update({'element appended': got, 'loop': unparse(lp['node'].iter)})
+            ok = ok and not e.conds          # no element is filtered out
+        ctx.check(bool(ok), 'C05.R', f, 'request given as a %s: every element contributes its epoch seconds, in order' % k, witness=wit, node=found[k], key='arm:' + k)
     # number: tini, tini + d, ... while <= tfin
     nb = found['number'].body
     loops = [s for s in nb if isinstance(s, ast.While)]
@@ -327,33 +376,49 @@ def rule_Z(ctx):
         ctx.check(ok, 'C05.Z', f, 'mode %s with the linear algorithm runs %s(track, delta)' % (md, callee),
                   witness={'callees selected': sorted(names)}, node=f.node, key='dispatch:' + md)
     g = ctx.prog.func(TRACK + '.resample')
-    rec = [c for c in ast.walk(g.node) if isinstance(c, ast.Call) and isinstance(c.func, ast.Attribute) and c.func.attr == 'resample'
-           and unparse(c.func.value) == 'self']
-    if len(rec) != 1:
-        raise shape_error('Track.resample: recursive call not found', g.loc())
     formals = g.params[1:]
-    bound = {}
-    for k, a in enumerate(rec[0].args):
-        bound[formals[k]] = unparse(a)
-    for kw in rec[0].keywords:
-        bound[kw.arg] = unparse(kw.value)
-    ok = bound.get('mode') == 'mode' and bound.get('algo') == 'algo' and bound.get('delta') == 'delta'
-    ctx.check(ok, 'C05.Z', g, 'when the step is derived from npts/factor, mode and algorithm are forwarded to the second call',
-              witness={'call': unparse(rec[0]), 'why': 'a dropped mode falls back to spatial resampling: a step in seconds is used as metres'},
-              node=rec[0], key='forward')
-    calls = [c for c in ast.walk(g.node) if isinstance(c, ast.Call) and isinstance(c.func, ast.Name) and c.func.id == 'resample']
-    okc = len(calls) == 1 and [unparse(a) for a in calls[0].args] == ['self', 'delta', 'algo', 'mode']
-    ctx.check(okc, 'C05.Z', g, 'Track.resample passes (self, delta, algo, mode) to interpolation.resample(track, delta, algo, mode)',
-              witness={'call': unparse(calls[0]) if calls else None}, node=g.node, key='call')
-    body = body_nodocstring(g)
-    last = body[-1]
-    ctx.check(isinstance(last, ast.Assign) and unparse(last.targets[0]) == 'self.__analyticalFeaturesDico' and unparse(last.value) == '{}', 'C05.Z', g,
-              'the feature table of the resampled track is reset (its observations are new)', witness={'last statement': unparse(last)}, node=last, key='reset')
-    # delta from npts: spatial uses length, temporal duration
-    t = unparse(g.node)
-    ctx.recognise('if mode == MODE_SPATIAL:\n            delta = (1 + 1e-08) * self.length() / npts\n        else:\n            delta = (1 + 1e-08) * self.duration() / npts' in t
-              or ('self.length() / npts' in t and 'self.duration() / npts' in t), 'C05.Z', g,
-              'a point count is turned into a step from the length (spatial) or the duration (temporal)', witness={}, node=g.node, key='npts')
+    if formals[:1] != ['delta'] or 'mode' not in formals or 'algo' not in formals or 'npts' not in formals:
+        raise shape_error('Track.resample: parameters (delta, algo, mode, npts, ...) not found', g.loc())
+    wg = Walker(g, loop_mode='skip')
+    n_rec = n_dir = 0
+    for o in wg.run(body_nodocstring(g), State()):
+        if o.kind not in ('fall', 'return'):
+            continue
+        cs = [repr(cj) for c, _ in o.state.conds for cj in c.conjuncts()]
+        evs = o.state.events
+        rec = [e for e in evs if e.kind == 'call' and e.name == 'resample' and vr(e.recv) == 'self']
+        direct = [e for e in evs if e.kind == 'call' and e.name == 'resample' and e.recv is None]
+        if 'delta == None' in cs:
+            n_rec += 1
+            if len(rec) != 1 or direct:
+                raise shape_error('Track.resample: the step-less call does not go through one second call of itself', g.loc())
+            bound = {}
+            for k_, a_ in enumerate(rec[0].args):
+                bound[formals[k_]] = a_
+            bound.update(rec[0].kwargs)
+            ok = vr(bound.get('mode')) == 'mode' and vr(bound.get('algo')) == 'algo'
+            ctx.check(ok, 'C05.Z', g, 'when the step is derived from npts/factor, mode and algorithm are forwarded to the second call',
+                      witness={'call': unparse(rec[0].node), 'why': 'a dropped mode falls back to spatial resampling: a step in seconds is used as metres'},
+                      node=rec[0].node, key='forward')
+            d = bound.get('delta')
+            spatial = 'mode == MODE_SPATIAL' in cs
+            atoms = set(d.atoms()) if isinstance(d, Rat) else set()
+            okd = ('self.length()' in atoms) == spatial and ('self.duration()' in atoms) == (not spatial) and isinstance(d, Rat)
+            ctx.check(okd, 'C05.Z', g, 'a point count is turned into a step from the length (spatial) or the duration (temporal)',
+                      witness={'path': cs, 'step passed': vr(d)}, node=rec[0].node, key='npts')
+        elif 'delta != None' in cs:
+            if not direct:
+                continue          # the exit() arm for non-ENU data
+            n_dir += 1
+            okc = len(direct) == 1 and [vr(a_) for a_ in direct[0].args] == ['self', 'delta', 'algo', 'mode'] and not direct[0].kwargs
+            ctx.check(okc, 'C05.Z', g, 'Track.resample passes (self, delta, algo, mode) to interpolation.resample(track, delta, algo, mode)',
+                      witness={'call': unparse(direct[0].node)}, node=direct[0].node, key='call')
+            rs = [e for e in evs if e.kind == 'store' and e.name == 'self.__analyticalFeaturesDico' and e.seq > direct[0].seq and
+                  vr(e.value) in ('dict<{}>', 'dict()')]
+            ctx.check(bool(rs), 'C05.Z', g, 'the feature table of the resampled track is reset (its observations are new)',
+                      witness={'stores after the resampling': [repr(e) for e in evs if e.kind == 'store' and e.seq > direct[0].seq]}, node=direct[0].node, key='reset')
+    if n_rec == 0 or n_dir == 0:
+        raise shape_error('Track.resample: step-less / explicit-step paths not both found (%d, %d)' % (n_rec, n_dir), g.loc())
 
 
 def _cond_holds(c, md):
